@@ -11,6 +11,7 @@ pub const DEF: PropDef = PropDef { id: "C19", strata, run, setup, canaries: &["p
 
 const REF_PATH: &str = "/verif/ref/abi_reference.txt";
 const REF_ALL_PATH: &str = "/verif/ref/abi_reference_all.txt";
+const REF_DISAGREE_PATH: &str = "/verif/ref/abi_reference_disagree.txt";
 const FAMILIES: [&str; 10] = ["ELFOSABI_", "ET_", "EM_", "SHT_", "PT_", "STT_", "STB_", "STV_", "ELFCOMPRESS_", "DT_"];
 
 /// every value any reference header assigns to a name of the function's family, exported by the crate or not
@@ -33,6 +34,7 @@ fn family_values(which: u64) -> Vec<i128> {
 
 fn setup(ctx: &mut Ctx) {
     ctx.floor("constants:compared", 1000);
+    ctx.floor("constants:compared-with-either-header", 4);
     ctx.floor("structs:compared", 16);
     ctx.floor("struct-fields:compared", 90);
     ctx.floor("to_str:some-checked", 400);
@@ -97,6 +99,38 @@ fn check_constants(ctx: &mut Ctx) {
         }
     }
     ctx.count_n("constants:unchecked(not-in-reference)", unchecked);
+    // names on which the two reference headers disagree: either header's value is accepted; names whose candidate
+    // values are each other's permutation (a swapped pair) must follow one header together, so that they stay distinct
+    if let Ok(txt) = std::fs::read_to_string(REF_DISAGREE_PATH) {
+        let cands: Vec<(String, u64, u64)> = txt
+            .lines()
+            .filter_map(|l| {
+                let mut it = l.split_whitespace();
+                Some((it.next()?.to_string(), it.next()?.parse().ok()?, it.next()?.parse().ok()?))
+            })
+            .collect();
+        let value_of = |n: &str| ABI_CONSTS.iter().find(|(name, _, _)| *name == n).map(|(_, ty, v)| (*v as u64) & width_mask(ty));
+        for (n, g, l) in &cands {
+            let Some(v) = value_of(n) else { continue };
+            ctx.eval();
+            ctx.count("constants:compared-with-either-header");
+            if v != *g && v != *l {
+                ctx.violation(&format!("const:{n}"), format!("elf::abi::{n} = {v:#x} ({v}); glibc says {g}, LLVM says {l}"));
+                continue;
+            }
+            for (n2, g2, l2) in &cands {
+                if n2 != n && g2 == l && l2 == g {
+                    if let Some(v2) = value_of(n2) {
+                        let follows_glibc = v == *g && v2 == *g2;
+                        let follows_llvm = v == *l && v2 == *l2;
+                        if !follows_glibc && !follows_llvm && n < n2 {
+                            ctx.violation(&format!("const:{n}+{n2}"), format!("elf::abi::{n} = {v} and elf::abi::{n2} = {v2}: glibc assigns {g}/{g2}, LLVM assigns {l}/{l2}; the crate follows neither for the pair"));
+                        }
+                    }
+                }
+            }
+        }
+    }
     // non-integer constants, compared literally
     let nonint: [(&str, bool); 4] = [
         ("ELFMAGIC", elf::abi::ELFMAGIC == [0x7f, b'E', b'L', b'F']),
